@@ -66,13 +66,15 @@ class OpV:
                 return "(%s %s)" % ("OFwd" if "forward" in f[2] else "OBwd", self.t(args[0]))
             coil = (("attr", SELF, "_coil_dim"), X.const(1))
             if f in (("attr", S("T"), "expand_operator"), S("expand_operator")):
-                if len(args) != 2 or kw.get("dim") not in coil:
+                a0, a1 = X.arg(v, 0, "data"), X.arg(v, 1, "sensitivity_map")
+                if a0 is None or a1 is None or X.arg(v, 2, "dim") not in coil or len(args) + len(kw) != 3:
                     self.fail(v, "expand_operator call outside subset")
-                return "(OExpand %s %s)" % (self.t(args[0]), self.t(args[1]))
+                return "(OExpand %s %s)" % (self.t(a0), self.t(a1))
             if f in (("attr", S("T"), "reduce_operator"), S("reduce_operator")):
-                if len(args) != 2 or kw.get("dim") not in coil:
+                a0, a1 = X.arg(v, 0, "coil_data"), X.arg(v, 1, "sensitivity_map")
+                if a0 is None or a1 is None or X.arg(v, 2, "dim") not in coil or len(args) + len(kw) != 3:
                     self.fail(v, "reduce_operator call outside subset")
-                return "(OReduce %s %s)" % (self.t(args[0]), self.t(args[1]))
+                return "(OReduce %s %s)" % (self.t(a0), self.t(a1))
             cmul = (("attr", S("T"), "complex_multiplication"), S("complex_multiplication"))
             if f in cmul and len(args) == 2 and not kw:
                 a, b = args
@@ -174,7 +176,13 @@ def standard_terms(ctx):
         if v[0] == "tuple" and v[1][1] != gen[0]:
             raise Untranslatable("apply_mask: the mask returned is not the generated one", None, path)
     hooks = {("attr", S("T"), "apply_mask"): _apply_mask_hook(ctx), S("apply_mask"): _apply_mask_hook(ctx)}
-    terms["apply_padding_t"] = _term(ctx, tree, path, "apply_padding", hooks, select=lambda conds: all(not (c == ("cmp", "is", S("padding"), X.NONE) and pol) for c, pol in conds))
+    no_padding = lambda c, pol: (c == ("cmp", "is", S("padding"), X.NONE) and pol) or (c == ("cmp", "isnot", S("padding"), X.NONE) and not pol)
+    terms["apply_padding_t"] = _term(ctx, tree, path, "apply_padding", hooks, select=lambda conds: not any(no_padding(c, pol) for c, pol in conds))
+    # ... and without a padding the data is returned as it is
+    t0, _n = X.run_function(tree, path, "apply_padding", callhooks=hooks)
+    for conds, lf in X.leaves(X.lift_ife(X.prune_raises(X.drop_do(t0)))):
+        if any(no_padding(c, pol) for c, pol in conds) and lf != ("ret", S("data")):
+            raise Untranslatable("apply_padding: without a padding the data is not returned unchanged", None, path)
     # ApplyMaskModule.forward: the target k-space is apply_mask(input k-space, sampling mask)
     path2 = ctx.src("direct/data/mri_transforms.py")
     tree2, _ = pg.parse_file(path2)
